@@ -259,8 +259,13 @@ class StmtMixin(object):
 
     def st_Break(self, s):
         if self.loops:
-            self.loops[-1].break_envs.append(dict(self.frame.env.vars))
-            self.goto(self.loops[-1].brk, 'break')
+            rec = self.loops[-1]
+            if rec.brk_else is not None:
+                rec.brk_else_envs.append(dict(self.frame.env.vars))
+                self.goto(rec.brk_else, 'break')
+                return
+            rec.break_envs.append(dict(self.frame.env.vars))
+            self.goto(rec.brk, 'break')
         else:
             self.cur = None
 
@@ -453,12 +458,21 @@ class StmtMixin(object):
         if f is not None:
             self.g.edge(f, exit_)
         rec = LoopRec(exit_, head)
+        after, after_envs = None, []
+        if s.orelse:
+            after = self.join_node(s, 'after-while-else')
+            rec.brk_else, rec.brk_else_envs = after, after_envs
         self.loops.append(rec)
         self.loop_depth = getattr(self, 'loop_depth', 0) + 1
         self.loop_heads = getattr(self, 'loop_heads', []) + [head]
         self.cur = t
         self.apply_refinements(rt)
-        self.exec_block(s.body)
+        tgt = getattr(self, '_else_target', None)
+        self._else_target = None
+        try:
+            self.exec_block(s.body)
+        finally:
+            self._else_target = tgt
         if self.cur is not None:
             self.g.edge(self.cur, head, 'back')
         self.loop_depth -= 1
@@ -467,8 +481,15 @@ class StmtMixin(object):
         self.frame.env.vars = self.merge_envs([pre, self.frame.env.vars] + rec.break_envs)
         self.close_loopvars(names, head)
         self.land(exit_)
-        if self.cur is not None and s.orelse:
-            self.exec_block(s.orelse)
+        if s.orelse:
+            if self.cur is not None:
+                self.exec_block(s.orelse)
+            if self.cur is not None:
+                after_envs.append(self.frame.env.vars)
+                self.goto(after)
+            if after_envs:
+                self.frame.env.vars = self.merge_envs(after_envs)
+            self.land(after)
 
     def widen(self, names, head):
         for nme in names:
@@ -502,29 +523,67 @@ class StmtMixin(object):
             if False else assigned_names(s.body)
 
         def per_item(val):
-            self.bind_target(s.target, val, s)
-            self.exec_block(s.body)
-        self.iterate(it, per_item, names, s)
-        if self.cur is not None and s.orelse:
+            tgt = getattr(self, '_else_target', None)
+            self._else_target = None      # loops nested in the body are not this loop
+            try:
+                self.bind_target(s.target, val, s)
+                self.exec_block(s.body)
+            finally:
+                self._else_target = tgt
+        if not s.orelse:
+            self.iterate(it, per_item, names, s)
+            return
+        # for ... else: the else block runs when the loop is exhausted, a break skips it
+        after = self.join_node(s, 'after-for-else')
+        envs = []
+        self._else_target = (after, envs)
+        try:
+            self.iterate(it, per_item, names, s)
+        finally:
+            self._else_target = None
+        if self.cur is not None:
             self.exec_block(s.orelse)
+        if self.cur is not None:
+            envs.append(self.frame.env.vars)
+            self.goto(after)
+        if envs:
+            self.frame.env.vars = self.merge_envs(envs)
+        self.land(after)
+
+    def tag_else(self, rec, keep=False):
+        """The loop being set up belongs to a for/while statement with an else clause."""
+        tgt = getattr(self, '_else_target', None)
+        if tgt is not None:
+            rec.brk_else, rec.brk_else_envs = tgt
 
     def iterate(self, it, per_item, names, node):
         """Run per_item(val) for the elements of ``it`` at the current point."""
         if self.cur is None:
             return
+        if isinstance(it, Phi) and len(it.alts) == 1:
+            it = it.alts[0][0]
         if isinstance(it, Phi):
             iterables = [a for a in it.terms()]
             special = [a for a in iterables if isinstance(a, (GenObj, ListObj, TupleT, Obj))
-                       or self.unwrap_enumerate(a) is not None]
+                       or self.unwrap_enumerate(a) is not None
+                       or (isinstance(a, Call) and a.fn.startswith('itertools.chain'))]
             if special:
                 start = self.cur
                 end = self.join_node(node, 'end-iter-alternatives')
                 snap = dict(self.frame.env.vars)
                 envs = []
-                for a in iterables:
+                # which alternative is iterated is tied to the site that handed it over
+                sites = [o if o is not None else getattr(a, 'site', None)
+                         for a, o in it.alts]
+                group = tuple(sorted(set(x for x in sites if x is not None))) \
+                    if all(x is not None for x in sites) and \
+                    len(set(sites)) == len(sites) else None
+                for a, st in zip(iterables, sites):
                     self.cur = start
                     self.frame.env.vars = dict(snap)
-                    self.emit('dispatch', node, {'target': a})
+                    self.emit('dispatch', node, {'target': a,
+                                                 'alt_site': st if group else None,
+                                                 'group': group})
                     self.iterate(a, per_item, names, node)
                     if self.cur is not None:
                         envs.append(self.frame.env.vars)
@@ -532,6 +591,16 @@ class StmtMixin(object):
                 self.frame.env.vars = self.merge_envs(envs) if envs else snap
                 self.land(end)
                 return
+        if isinstance(it, Call) and it.fn == 'itertools.chain':
+            for part in it.args:          # one iterable after the other
+                if self.cur is None:
+                    break
+                self.iterate(part, per_item, names, node)
+            return
+        if isinstance(it, Call) and it.fn == 'itertools.chain.from_iterable' and it.args:
+            def inner_iter(part):
+                self.iterate(part, per_item, names, node)
+            return self.iterate(it.args[0], inner_iter, names, node)
         inner = self.unwrap_enumerate(it)
         if inner is not None:
             src, start = inner
@@ -575,6 +644,7 @@ class StmtMixin(object):
                 break
             nxt = self.join_node(node, 'next-iteration')
             rec = LoopRec(exit_, nxt)
+            self.tag_else(rec, keep=True)
             self.loops.append(rec)
             self.emit('iteration', node, {'index': i, 'value': val})
             per_item(val)
@@ -614,6 +684,7 @@ class StmtMixin(object):
         pre = dict(self.frame.env.vars)
         self.g.edge(head, exit_, 'exhausted')
         rec = LoopRec(exit_, head)
+        self.tag_else(rec)
         self.loops.append(rec)
         self.loop_depth = getattr(self, 'loop_depth', 0) + 1
         self.loop_heads = getattr(self, 'loop_heads', []) + [head]
@@ -701,6 +772,7 @@ class StmtMixin(object):
         chandlers = list(self.handlers)
         cloops = self.loops
         rec = LoopRec(exit_, None)
+        self.tag_else(rec)
         builder = self
 
         def on_yield(val, ynode):
@@ -710,6 +782,7 @@ class StmtMixin(object):
             gctx = (builder.frame, builder.handlers, builder.loops)
             resume = builder.join_node(ynode, 'resume-after-yield')
             r = LoopRec(exit_, resume)
+            r.brk_else, r.brk_else_envs = rec.brk_else, rec.brk_else_envs
             r.break_envs = rec.break_envs
             builder.frame = cframe
             builder.handlers = list(chandlers)
